@@ -289,17 +289,31 @@ def _fix_class_name_duplicates(generators: List[tuple]):
             model.set_raw_name(name, generated=model.is_name_generated)
 
 
+def _descendants(model: ModelMeta) -> List[ModelMeta]:
+    """
+    Models the given one refers to, directly or through other models (without the model itself)
+    """
+    found: Dict[str, ModelMeta] = {}
+    queue = [model]
+    while queue:
+        for ptr in queue.pop().child_pointers:
+            child = ptr.type
+            if child.index != model.index and child.index not in found:
+                found[child.index] = child
+                queue.append(child)
+    return sorted(found.values(), key=lambda m: m.index)
+
+
 def _reserve_child_class_names(generators: List[tuple]):
     """
     In the nested layout the class of a child model shares the class body with the fields of its parent:
     no field may get the name of such a class (in both layouts, so that they agree on the field names)
     """
     for gen, nested_generators in generators:
-        for ptr in gen.model.child_pointers:
-            gen.reserve_field_name(ptr.type.name)
-        for nested_gen, _ in nested_generators:
-            # (a class can also be nested here without being a child: one that several children share)
-            gen.reserve_field_name(nested_gen.model.name)
+        # Not only the children: a model that several children share is nested here as well. Which ones are is a matter
+        # of the layout, so every model below this one counts
+        for model in _descendants(gen.model):
+            gen.reserve_field_name(model.name)
         # Colliding keys get their suffixes in the order of the keys, not in the order the samples brought them
         for key in sorted(gen.model.type):
             gen.convert_field_name(key)
